@@ -109,7 +109,11 @@ def run(ctx, res):
     res.rule = ('child and parent tables with duplicate keys on either side, NULL keys, keys differing only in blanks / case / leading zeros, no matches; 1-3 join conditions; '
                 'same file, other file, other file with equal content; a sixth of the cases a hierarchy over one table (mgr = id) whose root rows are NULL in child-only columns; parent subject maps using or not using the join columns; each case against the Engine model and the Spec join; '
                 'distinct = distinct case; non-trivial = at least one joined statement prescribed')
-    family.run_family(ctx, res, [(gen_hierarchy_case(ctx.rng) if i % 6 == 5 else gen_join_case(ctx.rng)) for i in range(ctx.scale(180, 4200))], features)
+    family.run_family(ctx, res, [(gen_hierarchy_case(ctx.rng) if i % 6 == 5 else gen_join_case(ctx.rng)) for i in range(ctx.scale(180, 4200))], features, style_fn=style_fn)
 
 
-replay = family.replay_family
+from .c01 import style_fn       # spellings: YARRRML / legacy vocabulary / shared subject maps by a hash of the document
+
+
+def replay(ctx, res, payload):
+    family.replay_family(ctx, res, payload, style_fn=style_fn)
